@@ -18,6 +18,8 @@ pub enum Kind {
     Node,
     /// a closure that captured an array; `touch` wraps it in another closure
     Closure,
+    /// an array of well over a hundred heap strings (a message that is large to copy)
+    BigArr,
 }
 
 const KINDS: &[Kind] = &[
@@ -30,6 +32,7 @@ const KINDS: &[Kind] = &[
     Kind::Rec,
     Kind::Node,
     Kind::Closure,
+    Kind::BigArr,
 ];
 
 #[derive(Clone, Debug)]
@@ -43,6 +46,7 @@ enum V {
     Rec(String, Vec<i64>),
     Node(Vec<String>, String),
     Closure(String),
+    Big(Vec<String>),
 }
 
 impl Kind {
@@ -57,6 +61,7 @@ impl Kind {
             Kind::Rec => "Rec",
             Kind::Node => "Shape",
             Kind::Closure => "int -> string",
+            Kind::BigArr => "array<string>",
         }
     }
 
@@ -71,6 +76,7 @@ impl Kind {
             Kind::Rec => "struct",
             Kind::Node => "enum",
             Kind::Closure => "closure",
+            Kind::BigArr => "array<string>[130+]",
         }
     }
 
@@ -169,6 +175,35 @@ fn touch(x: Rec, k: int) -> Rec {
 }
 "#
             }
+            Kind::BigArr => {
+                r#"fn mk(w: int, seq: int) -> array<string> {
+    let a = []
+    for k in 130 + seq * 7 {
+        a.push("e" .. w .. "_" .. seq .. "_" .. k)
+    }
+    a
+}
+fn show(x: array<string>) -> string {
+    // joined in blocks of twelve so that the cost stays linear in the number of elements
+    var s = "" .. x.len() .. ":"
+    var part = ""
+    var i = 0
+    while i < x.len() {
+        part = part .. x[i] .. ","
+        if i % 12 == 11 {
+            s = s .. part
+            part = ""
+        }
+        i = i + 1
+    }
+    s .. part
+}
+fn touch(x: array<string>, k: int) -> array<string> {
+    x.push("k" .. k)
+    x
+}
+"#
+            }
             Kind::Closure => {
                 r#"fn mk(w: int, seq: int) {
     let xs = ["m" .. w]
@@ -223,6 +258,7 @@ fn touch(x: Shape, k: int) -> Shape {
             Kind::Rec => V::Rec(format!("m{w}"), vec![seq, seq + 1]),
             Kind::Node => V::Node(vec![format!("a{seq}")], format!("m{w}")),
             Kind::Closure => V::Closure(format!("m{w}_{seq}/7")),
+            Kind::BigArr => V::Big((0..130 + seq * 7).map(|k| format!("e{w}_{seq}_{k}")).collect()),
         }
     }
 
@@ -248,6 +284,7 @@ impl V {
             V::Rec(name, vals) => format!("{name}:{}", vals.iter().map(|e| format!("{e},")).collect::<String>()),
             V::Node(xs, y) => format!("N{}{y}", xs.iter().map(|e| format!("{e},")).collect::<String>()),
             V::Closure(s) => s.clone(),
+            V::Big(a) => format!("{}:{}", a.len(), a.iter().map(|e| format!("{e},")).collect::<String>()),
         }
     }
 
@@ -279,6 +316,11 @@ impl V {
                 V::Node(xs, y.clone())
             }
             V::Closure(s) => V::Closure(format!("{s}+{k}")),
+            V::Big(a) => {
+                let mut a = a.clone();
+                a.push(format!("k{k}"));
+                V::Big(a)
+            }
         }
     }
 }
@@ -361,7 +403,7 @@ pub fn generate(rng: &mut Rng, shapes: &[Shape], print_from_main: bool) -> Workl
     let shape = *rng.pick(shapes);
     let kind = *rng.pick(KINDS);
     let ty = kind.ty();
-    let m = rng.range(2, 6) as i64;
+    let m = if kind == Kind::BigArr { rng.range(1, 3) as i64 } else { rng.range(2, 6) as i64 };
     let mut src = String::from(COMMON);
     src.push_str(kind.fns());
     src.push('\n');
